@@ -23,6 +23,12 @@ pub enum Op {
     /// reopen_output() is called (log rotation by an external tool): the writer continues in a
     /// fresh file at the original path
     MoveAwayAndReopen,
+    /// reopen_output() without any external action (no flush before it): the file, its size and
+    /// its start time stay what they are; records still buffered belong to it
+    Reopen,
+    /// reset_flw() with the configuration the writer has, with append (no flush before it): the
+    /// writer continues in the same file, like a restart with append inside the process
+    ResetSame,
 }
 
 /// record lengths biased to the boundaries that matter: the size limit `n` (line ending
@@ -86,6 +92,8 @@ pub fn ops_strat_f(
     if with_failures {
         opts.push((1, len_strat(n, cap, le).prop_map(Op::FailWrite).boxed()));
         opts.push((1, Just(Op::MoveAwayAndReopen).boxed()));
+        opts.push((1, Just(Op::Reopen).boxed()));
+        opts.push((1, Just(Op::ResetSame).boxed()));
     }
     if with_time {
         opts.push((4, crate::vtime::advance_ms_strat().prop_map(Op::Advance).boxed()));
@@ -217,6 +225,28 @@ impl<'a> Exec<'a> {
                 sess.reopen().map_err(|e| format!("reopen_output failed: {e}"))?;
                 let now = self.now();
                 self.model.current_moved_away(now);
+            }
+            Op::Reopen => {
+                if self.model.initialized && !self.cfg.mode.is_async() {
+                    sess.reopen().map_err(|e| format!("reopen_output failed: {e}"))?;
+                }
+            }
+            Op::ResetSame => {
+                // (with the start time in the name a new FileSpec is a new family)
+                if self.model.initialized && !self.cfg.mode.is_async() && !self.cfg.start_ts {
+                    if let Some(dir) = self.dir.clone() {
+                        let mut target = self.cfg.clone();
+                        // a Logger hands the write mode without its flush interval to its writer
+                        if target.via_logger {
+                            if let crate::fscn::Mode::BufAndFlush(c, _) = target.mode {
+                                target.mode = crate::fscn::Mode::BufDontFlush(c);
+                            }
+                        }
+                        let b = crate::fscn::flw_builder(&target, &dir, true, None);
+                        sess.reset(&b).map_err(|e| format!("reset_flw failed: {e}"))?;
+                        self.model.start_run(true);
+                    }
+                }
             }
             Op::Rotate => {
                 let now = self.now();
